@@ -8,7 +8,7 @@ from sa.astx import call_name, dotted, src, walk_local
 from sa.effects import accesses, class_accesses
 from sa.selftest import Mutant, Silent
 from sa.source import methods
-from sa.props._lib_b import (MiniBudget, MiniEval, MiniRaise, check_delayed_call, public_api_effects, lin_cmp, lin_cmp_text, lin_eq, linform, model_class, resolve_locals, Unsupported, clone, _Subst, single_assignment_locals, single_return)
+from sa.props._lib_b import (check_equality_is_identity, equality_locator_sites, MiniBudget, MiniEval, MiniRaise, check_delayed_call, public_api_effects, lin_cmp, lin_cmp_text, lin_eq, linform, model_class, resolve_locals, Unsupported, clone, _Subst, single_assignment_locals, single_return)
 
 PROPERTY = "C09"
 TASK = "internet/task.py"
@@ -212,6 +212,31 @@ def check(ctx):
                 ctx.violation("calls/ownership", c, f"operation of kind '{kind}' on `calls`")
         ctx.floor("calls/ownership", len(acc), 3)
 
+    with ctx.section("cancel removes exactly that call"):
+        # `calls.remove` (the canceller), `in`, index ... locate a DelayedCall with ==: that is the cancelled call itself only while
+        # DelayedCall equality is identity
+        dcls = ctx.cls(BASE, "DelayedCall")
+        sites = equality_locator_sites(cls, {"calls"})
+        ctx.floor("identity/located-by-equality", len(sites), 1, "equality-based look-ups in Clock")
+        check_equality_is_identity(ctx, ctx.mod(BASE), dcls, C, sites)
+        # bounded witness: cancel the second of two calls scheduled for the same time
+        bad = None
+        try:
+            lst = []
+            mk = lambda: Elem(time=1.0, delayed_time=0.0, cancelled=0, called=0, func=None, args=(), kw={}, debug=False, canceller=lst.remove, resetter=lambda c: None)
+            a, b = mk(), mk()
+            lst.extend([a, b])
+            MiniEval.budget = 0
+            MiniEval.call(methods(dcls)["cancel"], (b,), {})
+            if [id(x) for x in lst] != [id(a)]:
+                bad = "two calls scheduled for the same time, the second one cancelled: `calls` afterwards holds " + (
+                    "the cancelled call instead of its sibling" if [id(x) for x in lst] == [id(b)] else f"{len(lst)} calls")
+        except (MiniRaise, MiniBudget, ValueError) as e:
+            bad = f"cancel raises ({e})"
+        except (AttributeError, TypeError, NameError) as e:
+            raise Unsupported(f"model evaluation of DelayedCall.cancel failed ({type(e).__name__}: {e})")
+        ctx.check(bad is None, "model/cancel-removes-that-call", C + " | DelayedCall.cancel with calls.remove",
+                  f"cancel() does not unschedule exactly the cancelled call: {bad}")
     with ctx.section("public API"):
         # user code runs inside advance()'s loop; what it can call there (every public method but advance/pump themselves, whose
         # nesting is part of the design) may add a call at the end and re-sort, nothing else: no call is taken out or reordered
@@ -652,4 +677,19 @@ SILENT += [
                  (TASK, "        self.calls.append(dc)\n        self._sortCalls()\n        return dc", "        waiting = self.calls\n        waiting.append(dc)\n        self._sortCalls()\n        return dc"),
                  (TASK, "key=lambda a: a.getTime()", "key=_whenDue"),
                  (TASK, "@implementer(IReactorTime)\nclass Clock:", "def _whenDue(c):\n    return c.getTime()\n\n\n@implementer(IReactorTime)\nclass Clock:")]),
+]
+
+_DC_LT = '    def __lt__(self, other: "DelayedCall") -> bool:\n'
+MUTANTS += [
+    # DelayedCall gets a value equality "for symmetry with <": list.remove / index then pick the first call with the same time
+    Mutant("delayed-call-value-equality", BASE, _DC_LT,
+           "    def __eq__(self, other: object) -> bool:\n        if not isinstance(other, DelayedCall):\n            return NotImplemented\n"
+           "        return self.time == other.time\n\n    __hash__ = object.__hash__\n\n" + _DC_LT, expect_rule="identity/located-by-equality"),
+    Mutant("delayed-call-value-equality-witness", BASE, _DC_LT,
+           "    def __eq__(self, other):\n        return self.getTime() == other.getTime()\n\n    __hash__ = object.__hash__\n\n" + _DC_LT,
+           expect_rule="model/cancel-removes-that-call"),
+]
+SILENT += [
+    Silent("delayed-call-identity-equality-spelled-out", BASE, _DC_LT,
+           "    def __eq__(self, other: object) -> bool:\n        return self is other\n\n    __hash__ = object.__hash__\n\n" + _DC_LT),
 ]
